@@ -331,12 +331,12 @@ func c14CheckQuantiles(h stats.Histogram, cn c14Counts, r *core.Rec, desc string
 		fl := new(big.Int).Div(ex.Num(), ex.Denom())
 		k := int(fl.Int64())
 		cands[i] = []int{k}
-		frac := ref.F(new(big.Rat).Sub(ex, new(big.Rat).SetInt(fl)))
-		if frac < 1e-9 && k > 0 {
-			cands[i] = append(cands[i], k-1)
-		}
-		if frac > 1-1e-9 {
-			cands[i] = append(cands[i], k+1)
+		// The statement's rank is floor(q*total) for the float q. An implementation forms
+		// that product in float64, where it can round across a whole number: the only other
+		// rank that may legitimately come out is the floor of the ROUNDED product (either
+		// operand order gives the same correctly rounded product).
+		if kf := int(math.Floor(float64(total) * q)); kf != k {
+			cands[i] = append(cands[i], kf)
 		}
 	}
 	var firstFail [2]string
